@@ -174,6 +174,11 @@ type SecureChannel struct {
 	openingInstance *channelInstance
 	openingMu       sync.Mutex
 
+	// openingInstanceMu guards the openingInstance field (not the instance)
+	// between open(), which sets and resets it, and the dispatcher, which
+	// needs it to decrypt the "open" response and cannot take openingMu.
+	openingInstanceMu sync.Mutex
+
 	// openingReqID is the id of the "open" request whose response open() is
 	// waiting for, or zero.
 	openingReqID uint32 // atomic.Load/Store
@@ -273,6 +278,18 @@ func newSecureChannel(endpoint string, c *uacp.Conn, cfg *Config, kind channelKi
 
 func (s *SecureChannel) RemoteAddr() net.Addr {
 	return s.c.TCPConn.RemoteAddr()
+}
+
+func (s *SecureChannel) getOpeningInstance() *channelInstance {
+	s.openingInstanceMu.Lock()
+	defer s.openingInstanceMu.Unlock()
+	return s.openingInstance
+}
+
+func (s *SecureChannel) setOpeningInstance(instance *channelInstance) {
+	s.openingInstanceMu.Lock()
+	s.openingInstance = instance
+	s.openingInstanceMu.Unlock()
 }
 
 func (s *SecureChannel) getActiveChannelInstance() (*channelInstance, error) {
@@ -512,7 +529,10 @@ func (s *SecureChannel) readChunk() (*MessageChunk, error) {
 			return nil, ua.StatusBadDecodingError // todo(dh): check if this is the correct error
 		}
 
-		if s.openingInstance == nil {
+		// open() resets openingInstance when it returns, e.g. after a
+		// timeout, while we are still working on its response. Read it once.
+		opening := s.getOpeningInstance()
+		if opening == nil {
 			return nil, errors.Errorf("sechan: invalid state. openingInstance is nil.")
 		}
 
@@ -536,15 +556,15 @@ func (s *SecureChannel) readChunk() (*MessageChunk, error) {
 			if !ok {
 				return nil, ua.StatusBadCertificateInvalid
 			}
-			algo, err := uapolicy.Asymmetric(s.cfg.SecurityPolicyURI, s.openingInstance.sc.cfg.LocalKey, remoteKey)
+			algo, err := uapolicy.Asymmetric(s.cfg.SecurityPolicyURI, opening.sc.cfg.LocalKey, remoteKey)
 			if err != nil {
 				return nil, err
 			}
 
-			s.openingInstance.algo = algo
+			opening.algo = algo
 		}
 
-		decryptWith = s.openingInstance
+		decryptWith = opening
 	case "CLO":
 		return nil, io.EOF
 	case "MSG":
@@ -692,7 +712,7 @@ func (s *SecureChannel) open(ctx context.Context, instance *channelInstance, req
 		return err
 	}
 
-	s.openingInstance = newChannelInstance(s)
+	s.setOpeningInstance(newChannelInstance(s))
 	// s.openingInstance.secureChannelID = s.secureChannelID
 	// s.openingInstance.sequenceNumber = s.sequenceNumber
 	// s.openingInstance.securityTokenID = s.securityTokenID
@@ -716,7 +736,7 @@ func (s *SecureChannel) open(ctx context.Context, instance *channelInstance, req
 				instance.sequenceNumber = s.openingInstance.sequenceNumber
 			}
 		}
-		s.openingInstance = nil
+		s.setOpeningInstance(nil)
 	}()
 
 	reqID := s.nextRequestID()
